@@ -16,6 +16,7 @@ RULE += ' Kept handles and emptied/kept report copies as in C01 (also in the por
 RULE += ' A refused request must leave the holdings report unchanged. Composite: a market-neutral book (long q / short q quoted alike, both legs re-marked at the same mid: market value exactly 0.0), then the quotes part and the clock moves on.'
 RULE += ' Directed scripts: a held asset, its value asked for, re-quoted, then an update that re-marks it and aborts on an unpriced order - the valuation is read right after the abort and again after the next update.'
 RULE += ' Round 11: valid direct marks with int prices and hand-made transactions with int commissions / prices; a refused direct fill or mark (often one that would have closed the position) must leave the holdings report alone (holdings-changed-by-refused-request now also for pf_txn / pf_mark).'
+RULE += ' Round 12: six (thorough: 300) wide portfolios per broker shard - 15, 16, 17, 30 or 64 assets held at once, half of them with a twin holding (same fills, same mark): market value = sum of quantity x latest price, equity = cash + market value.'
 ASSUMPTIONS = [
     'market value is one float multiplication: compared at 1e-12 relative; sums at 1e-9',
     'icontract class invariants (no flat position kept; equity == cash + market value) are evaluated on every '
